@@ -1060,7 +1060,9 @@ NAMES = ["Q", "q2", "a", "meta", "data", "instanceID", "audit", "entity", "label
          "1a", "a b", "", " ", "a\tb", "None", "0", "x" * 300, "__a", "generated_note_name_3", "__version__", "itext", "output", "html", "h:head", "Q", "Q"]
 SETTING_KEYS = ["form_title", "form_id", "id_string", "version", "name", "default_language", "public_key", "submission_url", "auto_send", "auto_delete", "instance_name",
                 "style", "namespaces", "allow_choice_duplicates", "omit_instanceID", "instance_xmlns", "clean_text_values", "add_none_option", "flat", "sms_keyword", "prefix",
-                "delimiter", "attribute::x", "attribute::x::en", "version::en", "form_title::fr", "form_id::x", "style::a", "namespaces::n", "instance_name::en", "instance_id", "client_editable", "bogus_setting", "sms_separator", "sms_allow_media", "sms_date_format", "sms_datetime_format", "sms_response"]
+                "delimiter", "attribute::x", "attribute::x::en", "version::en", "form_title::fr", "form_id::x", "style::a", "namespaces::n", "instance_name::en", "instance_id", "client_editable", "bogus_setting", "sms_separator", "sms_allow_media", "sms_date_format", "sms_datetime_format", "sms_response",
+                # names of the form's own structural fields: text from a cell must never replace them
+                "type", "children", "bind", "control", "instance", "_translations", "attribute", "choices", "title", "label", "parameters"]
 SETTING_VALS = ["yes", "no", "true", "false", "", "1", "x", "a b", "${Q}", "concat(${Q}, 'x')", "pages", "theme-grid", 'a="http://x.y"', 'a=http://x.y b="u"', "a", "=", "French (fr)", "en", "None", "  ", "1.0"]
 COLS = ["label", "hint", "guidance_hint", "relevant", "required", "read_only", "constraint", "constraint_message", "required_message", "calculation", "default", "trigger",
         "appearance", "parameters", "choice_filter", "repeat_count", "image", "audio", "video", "big-image", "media::image", "label::en", "label::fr (fr)", "hint::en",
